@@ -33,11 +33,14 @@ def run(ctx):
     # 1. interceptors ------------------------------------------------------
     own = sorted(model.own_slots(sm))
     want = ["map_lookup", "map_subscript", "map_variable"]
-    ctx.ob("O/SubstitutionMapper/interceptors", own == want, sm.loc(),
-           f"intercepts exactly {want}" if own == want else
-           f"SubstitutionMapper defines handlers {own}, expected exactly {want}: "
-           "an extra interceptor changes which nodes are replaced",
-           {"own": own})
+    # (further interceptors are fine as long as each has the interceptor shape,
+    # judged below: for maps whose keys are variables, subscripts and look-ups
+    # the substitution function answers None for every other node)
+    missing = sorted(set(want) - set(own))
+    ctx.ob("O/SubstitutionMapper/interceptors", not missing, sm.loc(),
+           f"intercepts {own}" if not missing else
+           f"SubstitutionMapper no longer intercepts {missing}: keys of that "
+           "kind are silently ignored", {"own": own})
     for name in own:
         mem = model.lookup(sm, name)
         if mem is None or mem.kind != "func":
@@ -110,11 +113,38 @@ def run(ctx):
            "with the same subst_func")
 
 
+def _lookup_wrappers(model, sm):
+    """private methods that only pass the node on to subst_func: every
+    returning path gives subst_func(<its parameter>) or None"""
+    out = set()
+    for k in model.mro(sm):
+        if not hasattr(k, "members"):
+            continue
+        for nm, mem in k.members.items():
+            if mem.kind != "func" or not nm.startswith("_") or \
+                    nm.startswith("__") or len(mem.node.args.args) != 2:
+                continue
+            p = ("param", mem.node.args.args[1].arg)
+            rets = [ps.retval for ps in summarize(mem.node, plain=True)
+                    if ps.term == "return"]
+            others = [ps for ps in summarize(mem.node, plain=True)
+                      if ps.term != "return"]
+            if rets and not others and all(
+                    r == ("const", None) or (
+                        isinstance(r, tuple) and r[0] == "call"
+                        and r[1] == "self.subst_func" and r[2] == (p,))
+                    for r in rets) and any(r != ("const", None) for r in rets):
+                out.add(nm)
+    return out
+
+
 def _check_interceptor(ctx, model, sm, name, mem):
     fn = mem.node
     tag = f"F/SubstitutionMapper/{name}"
     pss = summarize(fn, loop_mode="1")
     saw_repl = saw_fallback = False
+    lookups = {"self.subst_func"} | {f"self.{w}"
+                                     for w in _lookup_wrappers(model, sm)}
     for ps in pss:
         loc = where(mem, ps.items[-1][1]) if ps.items[-1][1] is not None \
             else where(mem)
@@ -124,7 +154,7 @@ def _check_interceptor(ctx, model, sm, name, mem):
                    "an expression")
             continue
         rv = ps.retval
-        is_subst_call = rv[0] == "call" and rv[1] == "self.subst_func" \
+        is_subst_call = rv[0] == "call" and rv[1] in lookups \
             and rv[2] == (NODE,)
         if is_subst_call:
             # must be on the "is not None" side
@@ -135,7 +165,7 @@ def _check_interceptor(ctx, model, sm, name, mem):
                    else f"SubstitutionMapper.{name} returns subst_func's result "
                    "without testing it against None")
             continue
-        if contains(rv, lambda t: t[0] == "call" and t[1] == "self.subst_func"):
+        if contains(rv, lambda t: t[0] == "call" and t[1] in lookups):
             ctx.ob(f"{tag}/replacement", False, loc,
                    f"SubstitutionMapper.{name}: the replacement passes through "
                    f"further processing ({ast.unparse(ps.items[-1][1])}) -- "
@@ -143,7 +173,7 @@ def _check_interceptor(ctx, model, sm, name, mem):
             saw_repl = True
             continue
         # fallback path
-        none_side = any(_is_none_side(v, pol) for _, pol, v in ps.conds)
+        none_side = any(_is_none_side(v, pol, lookups) for _, pol, v in ps.conds)
         if rv == NODE and name == "map_variable":
             saw_fallback = True
             ctx.ob(f"{tag}/fallback", none_side, loc,
@@ -179,12 +209,12 @@ def _is_not_none_test(v, pol, target):
     return False
 
 
-def _is_none_side(v, pol):
+def _is_none_side(v, pol, lookups=("self.subst_func",)):
     if not isinstance(v, tuple) or v[0] != "compare" or len(v[1]) != 1:
         return False
     op, left, right = v[1][0], v[2], v[3][0]
-    if left[0] == "call" and left[1] == "self.subst_func" and \
-            right == ("const", None):
+    if left[0] == "call" and left[1] in lookups and \
+            left[2] == (NODE,) and right == ("const", None):
         return (op == "IsNot" and not pol) or (op == "Is" and pol)
     return False
 
@@ -261,7 +291,7 @@ def _check_substitute(ctx, model):
     KW = ("kwargs",)
     mutated = []
     applies = merged = True
-    n_ret = 0
+    n_ret = n_shortcut = 0
     for ps in summarize(fn, plain=True):
         upd_receivers = []
         for e in ps.events:
@@ -276,8 +306,21 @@ def _check_substitute(ctx, model):
                 mutated.append(e.name)
         if ps.term != "return":
             continue
-        n_ret += 1
         rv = ps.retval
+        # nothing to substitute (no mapping entries, no keyword assignments):
+        # the expression itself is the identical-objects answer
+        if rv == EXPR:
+            from ..summary import facts_of
+            facts = [f for _, pol0, v0 in ps.conds if isinstance(v0, tuple)
+                     for f in facts_of(v0, pol0)]
+            empty = lambda x: any(  # noqa: E731
+                (v == x and not pol) or
+                (v[0] == "compare" and v[1] == ("Is",) and v[2] == x
+                 and v[3] == (("const", None),) and pol) for v, pol in facts)
+            if empty(TABLE) and empty(KW):
+                n_shortcut += 1
+                continue
+        n_ret += 1
         callee = rv[4] if isinstance(rv, tuple) and len(rv) >= 5 else None
         good = isinstance(rv, tuple) and rv[0] == "call" and rv[2] == (EXPR,) \
             and isinstance(callee, tuple) and callee[0] == "call" and (
